@@ -1,5 +1,5 @@
 """C02 - join is the relational inner/cross join and xor the anti-join; both terminate."""
-import json
+import gc, json, os
 from harness.enc import IdMap, tag, untag, table_from, proj_table
 from harness import watchdog
 
@@ -8,6 +8,17 @@ MODEFN = lambda l, r: [r, l]
 TIMEOUTS = [0]
 MODES = {'none': None, 'l': 'l', 'r': 'r', '0': 0, '1': 1, 'fn': MODEFN}
 MODE_SPELLINGS = {'l': ['l', 'left', 'LHS', 'L'], 'r': ['r', 'right', 'RHS', 'R']}
+FLUSH_AT = int(os.environ.get('VERIF_VALIDATE_CHUNK', '30000')) - 500       # one slice of the log = one run of the trace specification
+
+
+def timed(f):
+    """the call under the CPU-time watchdog; Python's cyclic garbage collector is held off meanwhile (a full collection of the
+    harness's own log of observations inside the timed region would be billed to the call)"""
+    gc.disable()
+    try:
+        return watchdog.call(f, seconds=3.0)
+    finally:
+        gc.enable()
 
 
 def keyarg(ks, spelling):
@@ -74,7 +85,7 @@ def observe(x, y, lk, rk, op, mode, spelling, how):
     f = render_call(dx, dy if how == 'operator' else other, lk, rk, op, mode, spelling, how, len(x['rows']) + len(y['rows']))
     if TIMEOUTS[0] >= 25:       # enough evidence of non-termination; do not burn CPU on more
         return None
-    status, val = watchdog.call(f, seconds=3.0)
+    status, val = timed(f)
     if status == 'timeout':
         TIMEOUTS[0] += 1
     if status == 'ok':
@@ -126,7 +137,7 @@ def run_history(h, family, obs, meta):
         f = render_call(left, right, st['lk'], st['rk'], st['op'], st['mode'], st['spelling'], st['how'], len(bx['rows']) + len(by['rows']) + k)
         if TIMEOUTS[0] >= 25:
             return
-        status, val = watchdog.call(f, seconds=3.0)
+        status, val = timed(f)
         if status == 'timeout':
             TIMEOUTS[0] += 1
         if status == 'ok':
@@ -257,6 +268,32 @@ def rand_tables(rng):
     return t(rng.choice([0, 1, 2, 3, 5, 8])), t(rng.choice([0, 1, 2, 3, 5, 8]))
 
 
+def flush(ctx, obs, meta, final=False):
+    """hand the recorded calls to the trace specification (in slices: the log is not kept in memory) and turn rejected lines into violations"""
+    if not obs or (len(obs) < FLUSH_AT and not final):
+        return
+    for k, m in meta.items():
+        st = m['hist']['steps'][m['step']]
+        if m['hist']['shape'] != 'distinct' and st['lk'] != st['rk'] and obs[k]['out'].get('rows'):
+            ctx.note(('alias', m['hist']['shape'], json.dumps([st['lk'], st['rk']]), st['op'], json.dumps(obs[k]['x'])))
+    ctx.evals += len(obs)
+    bad = ctx.validate('Trace_Join', obs)
+    for line, clause in bad:
+        o = obs[line - 1]
+        kinds = sorted({v[0] for t in (o['x'], o['y']) for r in t['rows'] for c, v in r.items() if c in ('a', 'b', 'c', 'ka', 'kb')})
+        case = {'op': o['op'], 'how': o['how'], 'spelling': o['spelling'], 'mode': o['mode'], 'lk': o['lk'], 'rk': o['rk'],
+                'key_kinds': kinds, 'x': o['x'], 'y': o['y']}
+        if line - 1 in meta:
+            m = meta[line - 1]
+            case.update({'family': m['family'], 'shape': o['shape'], 'dir': o['dir'], 'hist': m['hist'], 'step': m['step']})
+        ctx.violation(clause, case, {'out': o['out'], 'x_after': o['x_after'], 'y_after': o['y_after']})
+    if len(obs) > 7 and not getattr(ctx, '_c02_sampled', False):
+        ctx._c02_sampled = True
+        ctx.sample({'observation': {k: obs[7][k] for k in ('op', 'x', 'y', 'lk', 'rk', 'mode', 'spelling', 'out')}})
+    del obs[:]
+    meta.clear()
+
+
 def check_enumeration(hists, what, need_edit):
     """vacuity (TLC's -coverage cannot digest MC_JoinObj): every shape, op, direction, form and step kind must occur in what TLC enumerated"""
     from harness.core import Machinery
@@ -294,7 +331,7 @@ def run(ctx):
         ctx.mc('MergeJoin', 'MergeJoin_orig.cfg', must_fail='Termination', deadlock=False)
         ctx.mc('MC_JoinObj', 'MC_JoinObj_guarded.cfg', coverage=False)
         ctx.mc('MC_JoinObj', 'MC_JoinObj_unguarded.cfg', coverage=False, must_fail='MechRefinesLaw')    # why aliasing has to be enumerated
-    obs = []
+    obs, meta = [], {}
     for g, nplans, cap in ([('MC_Join_gen_one2.cfg', 2, 2500), ('MC_Join_gen_two1.cfg', 3, 1500)] if ctx.quick else
                            [('MC_Join_gen_one3.cfg', 3, 40000), ('MC_Join_gen_two2.cfg', 3, 30000)]):
         cases = ctx.generate('MC_Join', g)
@@ -302,15 +339,16 @@ def run(ctx):
             cases = ctx.rng.sample(cases, cap)
         for k, c in enumerate(cases):
             run_case(ctx, c['x'], c['y'], k, nplans, obs)
+            flush(ctx, obs, meta)
             if 0 < c['npairs'] < len(c['x']['rows']) * len(c['y']['rows']):
                 ctx.note(('pair', json.dumps([c['x'], c['y']])))
         ctx.sample({'tlc_case': cases[len(cases) // 3]})
     for i in range(400 if ctx.quick else 8000):
         kx, ky = rand_tables(ctx.rng)
         run_case(ctx, kx, ky, i, 3, obs)
+        flush(ctx, obs, meta)
         ctx.note(('rand', i))
     # ---- one pair of operand objects: every single call (thinned by Stride), then simulated histories with edits, then random ones
-    meta = {}
     singles = ctx.generate('MC_JoinObj', 'MC_JoinObj_gen1.cfg' if ctx.quick else 'MC_JoinObj_gen1t.cfg')
     check_enumeration(singles, 'MC_JoinObj_gen1', False)
     singles.sort(key=lambda h: json.dumps(h, sort_keys=True))        # TLC's workers print in any order
@@ -323,31 +361,19 @@ def run(ctx):
         singles = ctx.rng.sample(singles, cap)
     for h in singles:
         run_history(h, 'single', obs, meta)
+        flush(ctx, obs, meta)
     sims = []
     for cfg, num, depth in ([('MC_JoinObj_sim.cfg', 50, 7)] if ctx.quick else [('MC_JoinObj_sim.cfg', 400, 7), ('MC_JoinObj_sim3.cfg', 200, 9)]):
         sims += ctx.generate('MC_JoinObj', cfg, simulate=num, depth=depth, seed=ctx.seed + 1, workers=1)
     check_enumeration(sims, 'MC_JoinObj_sim', True)
     for h in sims:
         run_history(h, 'history', obs, meta)
+        flush(ctx, obs, meta)
     for i in range(150 if ctx.quick else 2000):
         run_history(rand_history(ctx.rng, catalogue), 'random_history', obs, meta)
-    for k, m in meta.items():
-        st = m['hist']['steps'][m['step']]
-        if m['hist']['shape'] != 'distinct' and st['lk'] != st['rk'] and obs[k]['out'].get('rows'):
-            ctx.note(('alias', m['hist']['shape'], json.dumps([st['lk'], st['rk']]), st['op'], json.dumps(obs[k]['x'])))
+        flush(ctx, obs, meta)
     ctx.sample({'history': sims[len(sims) // 2]})
-    ctx.evals += len(obs)
-    bad = ctx.validate('Trace_Join', obs)
-    for line, clause in bad:
-        o = obs[line - 1]
-        kinds = sorted({v[0] for t in (o['x'], o['y']) for r in t['rows'] for c, v in r.items() if c in ('a', 'b', 'c', 'ka', 'kb')})
-        case = {'op': o['op'], 'how': o['how'], 'spelling': o['spelling'], 'mode': o['mode'], 'lk': o['lk'], 'rk': o['rk'],
-                'key_kinds': kinds, 'x': o['x'], 'y': o['y']}
-        if line - 1 in meta:
-            m = meta[line - 1]
-            case.update({'family': m['family'], 'shape': o['shape'], 'dir': o['dir'], 'hist': m['hist'], 'step': m['step']})
-        ctx.violation(clause, case, {'out': o['out'], 'x_after': o['x_after'], 'y_after': o['y_after']})
-    ctx.sample({'observation': {k: obs[7][k] for k in ('op', 'x', 'y', 'lk', 'rk', 'mode', 'spelling', 'out')}})
+    flush(ctx, obs, meta, final=True)
     ctx.exhaustive = False
     ctx.assumptions += ['xor with no key column returns x whole (named deviation XorNoKey)',
                         'key cells of the result are compared with the key equality of the statement (1 may come back as 1.0), other cells exactly',
